@@ -70,10 +70,16 @@ Join2(a, b) == IF b # <<>> /\ b[1] = SLASH THEN b
 RECURSIVE JoinAll(_, _)
 JoinAll(acc, parts) == IF parts = <<>> THEN acc ELSE JoinAll(Join2(acc, Head(parts)), Tail(parts))
 
-Variants == {"code", "nonorm", "noeq", "noprefix", "noabs"}
+Variants == {"code", "nonorm", "noeq", "noprefix", "noabs", "nulpartial"}
+
+\* "nulpartial": a normpath that stops at the first NUL (a C-level implementation working on a
+\* NUL-terminated copy) and leaves everything from the NUL on as it was: 'a NUL /../..' keeps its dot-dots
+PartialNorm(f) == LET k == FindFrom(f, <<0>>, 1) IN
+                  IF k = 0 THEN NormPath(f) ELSE NormPath(Take(f, k - 1)) \o Drop(f, k - 1)
 
 \* the component as safe_join looks at it
-Seen(variant, f) == IF f = <<>> \/ variant = "nonorm" THEN f ELSE NormPath(f)
+Seen(variant, f) == IF f = <<>> \/ variant = "nonorm" THEN f
+                    ELSE IF variant = "nulpartial" THEN PartialNorm(f) ELSE NormPath(f)
 
 \* the rejection test of safe_join on the normalised component (POSIX: no alternative separators,
 \* os.path.isabs = starts with a slash)
